@@ -4,12 +4,11 @@
    (formats: see harness/src/bin/stripe.rs) and prints one verdict line per case:
      <id> OK | <id> PROPFAIL <why> | <id> DIFF <why>
 
-   PROPFAIL: the implementation's own observation contradicts the property, decided
-   by the extracted checkers [check_striped] (proved sound: StripeProofs.
-   check_striped_sound) and [check_wrap_rows] on the implementation's matrix with
-   respect to the sequence striped last, by comparing Index / count_symbol(s) with
-   the linear sequence ([lin_counts]), by an op that panicked, or by the direct
-   generic-versus-AVX2 comparison made by the harness ("backend-mismatch").
+   PROPFAIL: the implementation's own observation contradicts the property: decided
+   by the extracted checker [check_C04] (proved sound: C04.C04_check_sound) on the
+   implementation's matrix / len / wrap / Index results / counts with respect to the
+   sequence striped last and the generic-versus-AVX2 comparison made by the harness
+   ("backend-mismatch"), or an op of the history panicked (C04_striped_history: none may).
    DIFF: the observation differs from the extracted model's (matrix, len, wrap,
    Index results incl. panics, counts) although the property checker passed. *)
 open Stripe_model
@@ -113,27 +112,40 @@ let () =
                        let ist = { mat = imat; slen = nat_of_int ilen; swrap = nat_of_int iwrap } in
                        let s = !last in
                        let sl = List.length s in
-                       (* --- the property, on the implementation's own output --- *)
-                       if irows <> List.length imat then propfail (Printf.sprintf "op%d rows()=%d but %d rows listed" n irows (List.length imat))
-                       else if List.exists (fun r -> List.length r <> c) imat then propfail (Printf.sprintf "op%d row-width" n)
-                       else if not (check_striped kn cn s ist) then
-                         propfail (Printf.sprintf "op%d not-striped len=%d/%d wrap=%d rows=%d C=%d" n ilen sl iwrap irows c)
-                       else if not (check_wrap_rows kn ist) then propfail (Printf.sprintf "op%d wrap-row-shift" n);
-                       (* Index for positions of the sequence *)
+                       (* --- the property, on the implementation's own output: decided by the
+                          extracted checker check_C04 (C04.C04_check_sound); the sub-checkers are
+                          only re-run to name what failed --- *)
                        let ixs = if ix = "-" then "" else ix in
-                       if String.length ixs <> List.length idx then diff (Printf.sprintf "op%d index-observation-count" n)
-                       else List.iteri (fun j i ->
-                           if i < sl then begin
-                             let expect = Char.chr (97 + int_of_nat (List.nth s i)) in
-                             if ixs.[j] <> expect then
-                               propfail (Printf.sprintf "op%d index[%d]=%c expected %c" n i ixs.[j] expect)
-                           end) idx;
-                       (* counts equal those of the linear sequence *)
-                       let lc = ints_string (lin_counts kn s) in
-                       if counts <> lc then propfail (Printf.sprintf "op%d count_symbols %s expected %s" n counts lc);
-                       if count1 <> lc then propfail (Printf.sprintf "op%d count_symbol %s expected %s" n count1 lc);
-                       (* generic versus AVX2, compared by the harness *)
-                       if String.length bm > 0 && bm.[0] = '!' then propfail (Printf.sprintf "op%d backend-mismatch %s" n bm);
+                       let ix_ok = String.length ixs = List.length idx in
+                       if not ix_ok then diff (Printf.sprintf "op%d index-observation-count" n);
+                       let res_of_char ch = if ch = 'P' then Panic O else Ok (nat_of_int (Char.code ch - 97)) in
+                       let o_index = if ix_ok then List.mapi (fun j i -> (nat_of_int i, res_of_char ixs.[j])) idx else [] in
+                       let res_of_counts str =
+                         if str = "P" then Panic O
+                         else (try Ok (List.map (fun x -> nat_of_int (int_of_string x)) (split ',' str)) with _ -> Panic O) in
+                       let agree = not (String.length bm > 0 && bm.[0] = '!') in
+                       let ob = { o_st = ist; o_index = o_index; o_counts = res_of_counts counts;
+                                  o_count1 = res_of_counts count1; o_agree = agree } in
+                       if irows <> List.length imat then propfail (Printf.sprintf "op%d rows()=%d but %d rows listed" n irows (List.length imat))
+                       else if not (check_C04 kn cn s ob) then begin
+                         let lc = ints_string (lin_counts kn s) in
+                         if List.exists (fun r -> List.length r <> c) imat then propfail (Printf.sprintf "op%d row-width" n)
+                         else if not (check_striped kn cn s ist) then
+                           propfail (Printf.sprintf "op%d not-striped len=%d/%d wrap=%d rows=%d C=%d" n ilen sl iwrap irows c)
+                         else if not (check_wrap_rows kn ist) then propfail (Printf.sprintf "op%d wrap-row-shift" n)
+                         else if counts <> lc then propfail (Printf.sprintf "op%d count_symbols %s expected %s" n counts lc)
+                         else if count1 <> lc then propfail (Printf.sprintf "op%d count_symbol %s expected %s" n count1 lc)
+                         else if not agree then propfail (Printf.sprintf "op%d backend-mismatch %s" n bm)
+                         else begin
+                           List.iteri (fun j i ->
+                               if i < sl && ix_ok then begin
+                                 let expect = Char.chr (97 + int_of_nat (List.nth s i)) in
+                                 if ixs.[j] <> expect then
+                                   propfail (Printf.sprintf "op%d index[%d]=%c expected %c" n i ixs.[j] expect)
+                               end) idx;
+                           propfail (Printf.sprintf "op%d check_C04" n)
+                         end
+                       end;
                        (* --- the model --- *)
                        (match m' with
                         | Ok mst ->
@@ -145,18 +157,24 @@ let () =
                             else begin
                               let mix = String.concat "" (List.map (fun i -> show_res_sym (s_index kn cn mst (nat_of_int i))) idx) in
                               if mix <> ixs then diff (Printf.sprintf "op%d index %s model %s" n ixs mix);
+                              (* the model's own counting loops (unary arithmetic, ~0.25 s per call at
+                                 L = 3000) are evaluated for sequences up to 1200 symbols and after the
+                                 last op of every history; the implementation's counts are compared with
+                                 the linear sequence after EVERY op above (check_C04), and the model's
+                                 counts are proved equal to those (C04_count_symbols_spec) *)
+                              let heavy = sl <= 1200 || obrest = [] in
+                              if heavy then begin
                               (match count_symbols kn cn mst with
                                | Ok l -> if ints_string l <> counts then diff (Printf.sprintf "op%d count_symbols model %s" n (ints_string l))
                                | _ -> if counts <> "P" then diff (Printf.sprintf "op%d count_symbols model-panics" n));
-                              (* count_symbol of the model for three symbols (all K are compared
-                                 with the linear sequence above; the unary model is slow) *)
                               let c1 = Array.of_list (split ',' count1) in
                               List.iter (fun x ->
                                   match count_symbol kn cn mst (nat_of_int x) with
                                   | Ok v -> if Array.length c1 <> k || c1.(x) <> string_of_int (int_of_nat v) then
                                               diff (Printf.sprintf "op%d count_symbol(%d) model %d" n x (int_of_nat v))
                                   | _ -> if count1 <> "P" then diff (Printf.sprintf "op%d count_symbol model-panics" n))
-                                (List.sort_uniq compare [0; k - 1; (n + sl) mod k])
+                                (if sl <= 1200 then List.sort_uniq compare [0; k - 1; (n + sl) mod k] else [(n + sl) mod k])
+                              end
                             end
                         | Panic site -> diff (Printf.sprintf "op%d model-panics site %d" n (int_of_nat site))
                         | Err e -> diff (Printf.sprintf "op%d model-err %d" n (int_of_nat e))
